@@ -13,6 +13,11 @@
 //!         destructor that panics, armed when the cause is delivered: for an unsupervised actor the terminal
 //!         event is dropped inside ActorLifecycleGuard::cleanup, which unwinds half way; the guard's Drop
 //!         must finish the exit (the supervisor of a supervised actor forgets the payload: control case)
+//!     supdrain=1 (needs sup=1): when the actor exits its supervisor is DRAINING (one message in flight parked at
+//!         a gate, one in its backlog, drain() requested): still alive, its supervision port still open
+//!     succ=1: post_stop spawns a successor under the SAME name (free since the cleanup at Stopping); the
+//!         printed cleanup count = pg Leave notifications + 1 if that successor's name entry has been removed
+//!         again by the end (a second execution of the exit cleanup block)
 //!     via=children: the cause (stop / drain) is delivered through the supervisor's
 //!         `stop_children()` / `drain_children()`
 //!     waiter kinds sc / dc: the SUPERVISOR's `stop_children_and_wait(None, tmo)` / `drain_children_and_wait(tmo)`
@@ -141,6 +146,7 @@ struct Cfg {
     handler_gate: Gate,
     flags: Arc<Flags>,
     fragile: Fragile,
+    succ: Option<(String, Arc<Mutex<Option<ActorCell>>>)>,
 }
 
 enum Msg {
@@ -199,6 +205,12 @@ impl Actor for Main {
     async fn post_stop(&self, _: ActorRef<Msg>, cfg: &mut Cfg) -> Result<(), ActorProcessingErr> {
         cfg.flags.ps_in.fetch_add(1, Ordering::SeqCst);
         let _guard = PsGuard(cfg.flags.clone());
+        if let Some((name, slot)) = &cfg.succ {
+            // a successor takes over the name (released by the cleanup at Stopping)
+            if let Ok((r, _)) = Actor::spawn(Some(name.clone()), Kid, ()).await {
+                *slot.lock().unwrap() = Some(r.get_cell());
+            }
+        }
         if let Some(g) = &cfg.ps_gate {
             g.pass().await;
         }
@@ -255,12 +267,22 @@ struct Sup {
     main_group: String,
     mark_prefix: String,
     log: Arc<Mutex<Vec<String>>>,
+    gates: [Gate; 2],
+    seen: AtomicU64,
 }
 impl Actor for Sup {
     type Msg = ();
     type State = ();
     type Arguments = ();
     async fn pre_start(&self, _: ActorRef<()>, _: ()) -> Result<(), ActorProcessingErr> {
+        Ok(())
+    }
+    async fn handle(&self, _: ActorRef<()>, _: (), _: &mut ()) -> Result<(), ActorProcessingErr> {
+        // the k-th plain message parks at gate k (used to keep the supervisor busy / draining)
+        let k = self.seen.fetch_add(1, Ordering::SeqCst) as usize;
+        if k < 2 {
+            self.gates[k].pass().await;
+        }
         Ok(())
     }
     async fn handle_supervisor_evt(
@@ -442,6 +464,9 @@ async fn run_scenario(line: &str) -> String {
     let tl = head.iter().any(|w| *w == "tl=1");
     let remote = head.iter().any(|w| *w == "remote=1");
     let is_fragile = head.iter().any(|w| *w == "fragile=1");
+    let supdrain = head.iter().any(|w| *w == "supdrain=1");
+    let with_succ = head.iter().any(|w| *w == "succ=1");
+    let succ_slot: Arc<Mutex<Option<ActorCell>>> = Arc::new(Mutex::new(None));
     let fragile = Fragile::default();
     let mon_group = format!("c06n-{pid}-{sid}");
     let via_children = head.iter().any(|w| *w == "via=children");
@@ -470,13 +495,15 @@ async fn run_scenario(line: &str) -> String {
         handler_gate: Gate::new(),
         flags: flags.clone(),
         fragile: fragile.clone(),
+        succ: with_succ.then(|| (name.clone(), succ_slot.clone())),
     };
 
     // supervisor and marker actor
+    let sup_gates = [Gate::new(), Gate::new()];
     let sup_log = Arc::new(Mutex::new(Vec::<String>::new()));
     let (sup_ref, _sup_h) = Actor::spawn(
         None,
-        Sup { main_name: name.clone(), main_group: group.clone(), mark_prefix: mark_prefix.clone(), log: sup_log.clone() },
+        Sup { main_name: name.clone(), main_group: group.clone(), mark_prefix: mark_prefix.clone(), log: sup_log.clone(), gates: sup_gates.clone(), seen: AtomicU64::new(0) },
         (),
     )
     .await
@@ -575,6 +602,14 @@ async fn run_scenario(line: &str) -> String {
         }
     }
     if !hold {
+        settle().await;
+    }
+    if supdrain {
+        // the supervisor: one message in flight (parked), one in the backlog, then drain()
+        sup_ref.cast(()).expect("sup msg");
+        sup_ref.cast(()).expect("sup msg");
+        settle().await;
+        let _ = sup_ref.get_cell().drain();
         settle().await;
     }
     // thread-local actors: what an operation must lead to before the barrier means anything
@@ -787,7 +822,19 @@ async fn run_scenario(line: &str) -> String {
     fragile.0.store(false, Ordering::SeqCst); // (disarm: the scenario is over)
     // every child signalled: with its gates still closed it has reached >= Stopping
     let kids_ok = kid_cells.iter().all(|k| k.get_status() >= ActorStatus::Stopping);
+    if supdrain {
+        // let the supervisor finish its in-flight message: it then serves its supervision port (priority)
+        // and parks again in the backlog message, still Draining
+        sup_gates[0].open();
+        settle().await;
+    }
     let term_at_end = sup_log.lock().unwrap().iter().any(|e| e == "term");
+    // a successor registered under the same name must still be found (unless it was never spawned)
+    let succ_cell = succ_slot.lock().unwrap().clone();
+    let succ_lost = match &succ_cell {
+        Some(c) => registry::where_is(name.clone()).map(|f| f.get_id() != c.get_id()).unwrap_or(true),
+        None => false,
+    };
     let completed: Vec<u64> = done.lock().unwrap().iter().map(|(w, _, _)| *w).collect();
     let mut pending: Vec<u64> = Vec::new();
     for (id, task) in &started {
@@ -804,12 +851,17 @@ async fn run_scenario(line: &str) -> String {
         }
     }
     pending.sort();
-    let leaves_at_end = sup_log.lock().unwrap().iter().filter(|e| *e == "leave").count();
+    let leaves_at_end =
+        sup_log.lock().unwrap().iter().filter(|e| *e == "leave").count() + if succ_lost { 1 } else { 0 };
 
     // tidy up so that nothing leaks into the next scenario; the supervisor drains its port first
     start_gate.open();
     ps_gate.open();
     main_cell.kill();
+    sup_gates[1].open();
+    if let Some(c) = &succ_cell {
+        c.kill();
+    }
     for g in &kid_gates {
         g.open();
     }
@@ -988,6 +1040,7 @@ mod thr {
         let mark_prefix = format!("c06tm-{pid}-{sid}-");
         let flags = Arc::new(Flags::default());
         let sup_log = Arc::new(Mutex::new(Vec::<String>::new()));
+        let sup_gates = [Gate::new(), Gate::new()];
 
         // the actor's runtime thread
         let (ready_tx, ready_rx) = std::sync::mpsc::channel::<(ActorCell, ActorCell, ActorCell)>();
@@ -1010,10 +1063,11 @@ mod thr {
                         handler_gate: Gate::new(),
                         flags: flags.clone(),
                         fragile: Fragile::default(),
+                        succ: None,
                     };
                     let (sup_ref, _sh) = Actor::spawn(
                         None,
-                        Sup { main_name: name.clone(), main_group: group.clone(), mark_prefix: mark_prefix.clone(), log: sup_log.clone() },
+                        Sup { main_name: name.clone(), main_group: group.clone(), mark_prefix: mark_prefix.clone(), log: sup_log.clone(), gates: sup_gates.clone(), seen: AtomicU64::new(0) },
                         (),
                     )
                     .await
